@@ -228,12 +228,14 @@ def ok (s : State) : Bool := linksOk s && stoppedOk s && setsOk s
 
 /-- "when an actor exits, every actor linked beneath it at that moment, transitively, reaches
 Stopped" at quiescent points, in edge form: every actor that is Stopped in `cur` and was not in `prev`
-has all its `prev`-children Stopped in `cur`.  (Given `ok prev` a child of a live actor is itself live
-in `prev`, so it is then newly stopped too and the clause propagates down the whole subtree.) -/
+has all its `prev`-children Stopped in `cur` — or `Stopping`: a child that had already ended its message
+loop and sits in a (user-defined, arbitrarily long) `post_stop` is exiting by itself and is not killed.
+(Given `ok prev` a child of a live actor is itself live in `prev`, so it is then newly stopped too and the
+clause propagates down the subtree, as far as actors that were already `Stopping`.) -/
 def subtreeOk (prev cur : State) : Bool :=
   (List.range prev.n).all fun a =>
     !(cur.status a == .stopped && prev.status a != .stopped) ||
-      ((prev.kids a).getD []).all (fun x => cur.status x == .stopped)
+      ((prev.kids a).getD []).all (fun x => decide (Status.stopping.toNat ≤ (cur.status x).toNat))
 
 /-- every child `a` has in `cur` it already had in `prev` -/
 def kidsSubOk (prev cur : State) (a : Nat) : Bool :=
@@ -258,6 +260,11 @@ structure Act where
   queue : Nat := 0
   stopReq : Bool := false
   handled : Nat := 0
+  /-- the harness armed the gate in this actor's `post_stop` -/
+  hold : Bool := false
+  /-- the actor ended its message loop gracefully, published `Stopping` and sits in `post_stop`;
+  `ActorLifecycleGuard::cleanup` (terminate, unlink, Stopped) has not run yet -/
+  inPs : Bool := false
   deriving DecidableEq, Repr
 
 structure MState where
@@ -277,6 +284,16 @@ def settle (fixed : Bool) : Nat → MState → MState
 def exitM (fixed : Bool) (m : MState) (a : Nat) : MState :=
   settle fixed m.t.n { t := exit fixed m.t a, act := upd m.act a { m.act a with gone := true, busy := false } }
 
+/-- a graceful exit (stop, drained): `set_status(Stopping)`, then `post_stop`, then `cleanup`.  If the
+gate in `post_stop` is armed the actor stays there — `Stopping`, children still linked, set still open. -/
+def gexit (fixed : Bool) (m : MState) (a : Nat) : MState :=
+  if (m.act a).hold then
+    { t := setStatus m.t a .stopping, act := upd m.act a { m.act a with inPs := true, busy := false } }
+  else exitM fixed m a
+
+/-- alive and still in its message loop -/
+def MState.looping (m : MState) (a : Nat) : Bool := m.alive a && !(m.act a).inPs
+
 inductive MOp
   | spawn
   | spawnl (p : Nat)
@@ -291,6 +308,10 @@ inductive MOp
   | kill (a : Nat)
   | fail (a : Nat)
   | abort (a : Nat)
+  /-- arm the gate in `post_stop` -/
+  | hold (a : Nat)
+  /-- open the gate: `post_stop` returns, `cleanup` runs -/
+  | psrelease (a : Nat)
   deriving DecidableEq, Repr
 
 /-- result of the API call as the harness reports it -/
@@ -322,25 +343,30 @@ def mstep (fixed : Bool) (m : MState) : MOp → MState × Res
     let A := m.act a
     if m.alive a && A.busy then
       let A := { A with handled := A.handled + 1 }
-      if A.stopReq then (exitM fixed { m with act := upd m.act a A } a, .unit)
+      if A.stopReq then (gexit fixed { m with act := upd m.act a A } a, .unit)
       else if A.queue > 0 then ({ m with act := upd m.act a { A with queue := A.queue - 1 } }, .unit)
       else
         let m' := { m with act := upd m.act a { A with busy := false } }
-        if m.t.status a = .draining then (exitM fixed m' a, .unit) else (m', .unit)
+        if m.t.status a = .draining then (gexit fixed m' a, .unit) else (m', .unit)
     else (m, .unit)
   | .drain a =>
-    if m.alive a then
-      let m' := { m with t := if (m.t.status a).toNat < Status.stopping.toNat then setStatus m.t a .draining else m.t }
-      if (m.act a).busy then (m', .unit) else (exitM fixed m' a, .unit)
+    -- (an actor in `post_stop` no longer reads its ports: drain and stop have no effect on it)
+    if m.looping a then
+      let m' := { m with t := setStatus m.t a .draining }
+      if (m.act a).busy then (m', .unit) else (gexit fixed m' a, .unit)
     else (m, .unit)
   | .stop a =>
-    if m.alive a then
+    if m.looping a then
       if (m.act a).busy then ({ m with act := upd m.act a { m.act a with stopReq := true } }, .unit)
-      else (exitM fixed m a, .unit)
+      else (gexit fixed m a, .unit)
     else (m, .unit)
   | .kill a => if m.alive a then (exitM fixed m a, .unit) else (m, .unit)
-  | .fail a => if m.alive a && !(m.act a).busy then (exitM fixed m a, .unit) else (m, .unit)
+  | .fail a => if m.looping a && !(m.act a).busy then (exitM fixed m a, .unit) else (m, .unit)
   | .abort a => if m.alive a then (exitM fixed m a, .unit) else (m, .unit)
+  | .hold a =>
+    if m.alive a then ({ m with act := upd m.act a { m.act a with hold := true } }, .unit) else (m, .unit)
+  | .psrelease a =>
+    if m.alive a && (m.act a).inPs then (exitM fixed m a, .unit) else (m, .unit)
 
 /-- a macro run: what one case of the E-LTS harness is -/
 def mrun (fixed : Bool) (m : MState) (ops : List MOp) : MState := ops.foldl (fun m op => (mstep fixed m op).1) m
